@@ -15,7 +15,7 @@ ASSUMPTIONS = ["reference evaluator celmodel/refeval.py implements the semantics
 
 
 def units(tier, seed):
-    n = 16 if tier == 'quick' else 320
+    n = 48 if tier == 'quick' else 320
     return [('typed', i) for i in range(n)] + [('concat', i) for i in range(2 if tier == 'quick' else 16)] + [('crossnum',)]
 
 
